@@ -422,6 +422,11 @@ func (gang *Gang) addAssumedPod(pod *v1.Pod) {
 	defer gang.lock.Unlock()
 
 	podId := util.GetId(pod.Namespace, pod.Name)
+	if _, bound := gang.BoundChildren[podId]; bound {
+		// already bound (e.g. a bind whose acknowledgement was lost): keep the member in exactly one set
+		delete(gang.PendingChildren, podId)
+		return
+	}
 	if _, ok := gang.WaitingForBindChildren[podId]; !ok {
 		gang.WaitingForBindChildren[podId] = pod
 		klog.Infof("AddAssumedPod, gangName: %v, podName: %v", gang.Name, podId)
@@ -436,7 +441,7 @@ func (gang *Gang) delAssumedPod(pod *v1.Pod) {
 	podId := util.GetId(pod.Namespace, pod.Name)
 	if _, ok := gang.WaitingForBindChildren[podId]; ok {
 		delete(gang.WaitingForBindChildren, podId)
-		if pendingPod := gang.Children[podId]; pendingPod != nil {
+		if pendingPod := gang.Children[podId]; pendingPod != nil && gang.BoundChildren[podId] == nil {
 			gang.PendingChildren[podId] = pendingPod
 		}
 		if len(gang.WaitingForBindChildren) == 0 {
